@@ -274,6 +274,7 @@ func c09Target(c *Ctx) {
 		}
 		key := fk(fn)
 		var https, http, nScheme int
+		var plainHTTP, sslHTTPS []ssa.Instruction // an unconditional "http" store; "https" stores under SSL
 		var okHostURL, okHost bool
 		nHostURL, nHost := 0, 0
 		// the function and the helpers of the package it hands the request to (directToTarget(req), ...)
@@ -305,9 +306,13 @@ func c09Target(c *Ctx) {
 					nossl := HasBoolFact(a.facts, IsFieldLoadPred("GunConfig", "SSL"), false)
 					if s == "https" && ssl {
 						https++
+						sslHTTPS = append(sslHTTPS, in)
 					}
 					if s == "http" && nossl {
 						http++
+					}
+					if s == "http" && !ssl && !nossl {
+						plainHTTP = append(plainHTTP, in)
 					}
 				}
 			}
@@ -346,6 +351,10 @@ func c09Target(c *Ctx) {
 				okHost = fromTarget && empty
 			}
 		})
+		// assign-then-override: "http" stored unconditionally first, "https" stored over it only under SSL
+		if http == 0 && len(plainHTTP) == 1 && len(sslHTTPS) == 1 && InstrDominates(plainHTTP[0], sslHTTPS[0]) {
+			http = 1
+		}
 		c.Check(nScheme == 2 && https == 1 && http == 1, "O9.3", key+":scheme-follows-ssl", fn.Pos(), fmt.Sprintf("%d scheme stores: https under SSL x%d, http under !SSL x%d", nScheme, https, http))
 		c.Check(nHostURL == 1 && okHostURL, "O9.3", key+":connects-to-the-resolved-target", fn.Pos(), "req.URL.Host = Config.TargetResolved")
 		c.Check(nHost == 1 && okHost, "O9.3", key+":host-header-defaults-to-target-name", fn.Pos(), "req.Host = getHostWithoutPort(Config.Target) only when the ammo set no Host")
